@@ -76,7 +76,15 @@ def explore_world(R, fn, bound, ctx, key, judge):
     outcomes = {}
 
     def run(prefix):
-        w = simmpi.run_world(R, fn, prefix)
+        from ..core import time_limit, CaseTimeout
+        try:
+            with time_limit(20):
+                w = simmpi.run_world(R, fn, prefix)
+        except CaseTimeout as e:
+            # horizon reached: ranks keep issuing collectives without ever finishing (livelock)
+            w = simmpi.World(R, prefix)
+            w.error = simmpi.Deadlock('livelock: %s' % e)
+            return [(1, c) for c in prefix], w
         return list(w.points), w
 
     def on_exec(choices, pts, w):
